@@ -301,12 +301,40 @@ def readsJudge (f : List String) (out : String) : String :=
     | _, _ => "bad:unparsable:" ++ (out.take 60).toString
   | _ => "bad:unparsable:case"
 
+/-! c13.wfail  id pairs body rk failAt : `Do` over a connection whose `failAt`-th Write and every later
+   one fail.  out = hex of what the connection accepted. -/
+def wfailParts : List String → Option (Bytes × Nat)
+  | [id, ps, body, rk, failAt] => do
+    let id ← id.toNat?
+    let ps ← parsePairs ps
+    let body ← parseBody body
+    let rk ← parseReader rk body.length
+    let k ← failAt.toNat?
+    match clientWireVia id ps body rk with
+    | .ok w => some (w, k)
+    | .error _ => none
+  | _ => none
+
+def wfailModel (f : List String) : String :=
+  match wfailParts f with
+  | none => "bad-case"
+  | some (w, k) =>
+    match splitRecords (w.length + 1) w with
+    | none => "bad-case"
+    | some rs => Driver.hex (rs.take (k - 1)).flatten
+
+def wfailJudge (f : List String) (out : String) : String :=
+  match wfailParts f, Driver.unhex out with
+  | some (w, k), some acc => brokenConnVerdict w acc k
+  | _, _ => if out.startsWith "PANIC" then "bad:panic:" ++ out else "bad:unparsable:" ++ (out.take 60).toString
+
 def streams : List Driver.Stream := [
   { name := "c13.wire", model := wireModel, judge := wireJudge },
   { name := "c13.demux", model := demuxModel, judge := demuxJudge },
   { name := "c13.route", model := routeModel, judge := routeJudge },
   { name := "c13.child", model := childModel, judge := childJudge },
-  { name := "c13.reads", model := readsModel, judge := readsJudge }
+  { name := "c13.reads", model := readsModel, judge := readsJudge },
+  { name := "c13.wfail", model := wfailModel, judge := wfailJudge }
 ]
 
 end Driver.C13
